@@ -29,3 +29,7 @@ extern "C" {
 void drv_mx_ctor(mutex *m) { new(m) mutex(); }
 void drv_mx_dtor(mutex *m) { m->~mutex(); }
 }
+// move assignment of an ownership (a still-held target is released by the assignment)
+extern "C" {
+void drv_own_move_assign(mutex::ownership *dst, mutex::ownership *src) { *dst = std::move(*src); }
+}
